@@ -27,6 +27,7 @@ def Good (p : Params) (s : S) : Op → Prop
   | .msgPause v => s.status v = .active → s.V v = true
   | .sig v signed _ => s.status v = .active → s.V v = true
   | .jail v _ => s.status v ≠ .jailed → s.V v = true
+  | .evidence v _ known stale => known = true → stale = false → s.status v ≠ .jailed → s.V v = true
   | .kPause v => s.status v ≠ .inactive → s.V v = true
   | .rankReset => ∀ v, s.status v = .active
   | _ => True
@@ -128,6 +129,22 @@ theorem sync_step (p : Params) (s s' : S) (op : Op) (h : Sync s) (hg : Good p s 
     | paused =>
       simp [hst] at hs; subst hs
       exact sync_congr (demote s v .jailed) _ (sync_demote s h v _ (by decide) (hg (by rw [hst]; decide))) rfl rfl rfl rfl
+  | evidence v now known stale =>
+    simp only [step] at hs
+    by_cases hk : known = true ∧ stale = false
+    · rw [if_pos hk] at hs
+      cases hst : s.status v with
+      | jailed => simp [hst] at hs; subst hs; exact sync_congr s _ h rfl rfl rfl rfl
+      | active =>
+        simp [hst] at hs; subst hs
+        exact sync_congr (demote s v .jailed) _ (sync_demote s h v _ (by decide) (hg hk.1 hk.2 (by rw [hst]; decide))) rfl rfl rfl rfl
+      | inactive =>
+        simp [hst] at hs; subst hs
+        exact sync_congr (demote s v .jailed) _ (sync_demote s h v _ (by decide) (hg hk.1 hk.2 (by rw [hst]; decide))) rfl rfl rfl rfl
+      | paused =>
+        simp [hst] at hs; subst hs
+        exact sync_congr (demote s v .jailed) _ (sync_demote s h v _ (by decide) (hg hk.1 hk.2 (by rw [hst]; decide))) rfl rfl rfl rfl
+    · rw [if_neg hk] at hs; simp at hs; subst hs; exact h
   | unjail v now =>
     simp only [step] at hs
     cases hst : s.status v <;> cases hj : s.jailTime v <;> simp [hst, hj] at hs
